@@ -15,6 +15,8 @@ CONSTANTS
     ReaderDone = TRUE
     AlertCloseOnErr = TRUE
     UdfStopAborts = FALSE
+    NWaiters = 0
+    WaitHoldsMu = TRUE
     HookNeedsTmLock = FALSE
 INVARIANTS
     TypeOK
